@@ -127,7 +127,7 @@ def sweep_part(shard, reps, seed):
 
 
 def run(tier, t0):
-    part = runner.hyp_shards("vf.props.c15", "hyp_part", 6400 if tier == "quick" else 320000)
+    part = runner.hyp_shards("vf.props.c15", "hyp_part", 14000 if tier == "quick" else 320000)
     for p in runner.parallel("vf.props.c15", "sweep_part", [(sh, 1 if tier == "quick" else 12, runner.SEED) for sh in range(runner.NPROC)]):
         part.merge(p)
     rule = ("accepted v2/v3 vectors in any spelling (uniform presence of optional metrics incl. explicit Not Defined); "
